@@ -329,6 +329,42 @@ def url_dispatch(si: int, ext: int, with_opts: bool) -> bool:
     return True
 
 
+def variants_history(ask: int, o1: bool, u1: bool, l1: bool, f1: bool, o2: bool, u2: bool, l2: bool, f2: bool, same_reader: bool) -> bool:
+    """
+    requires: 0 <= ask < 4
+    requires: (o1 or u1 or l1) and (o2 or u2 or l2)
+    """
+    # the variants a reader yields depend on ITS matching options only - not on what this or another reader was asked before
+    name = pick(NAMES, ask)
+    first = dict(originalMatching=o1, uppercaseMatching=u1, lowcaseMatching=l1, fuzzyMatching=f1)
+    second = dict(originalMatching=o2, uppercaseMatching=u2, lowcaseMatching=l2, fuzzyMatching=f2)
+    a = AbstractReader().setOptions(**first)
+    list(a.getMibVariants(name))
+    b = a.setOptions(**second) if same_reader else AbstractReader().setOptions(**second)
+    got = [x for x, y in b.getMibVariants(name)]
+    lo = name.lower()
+    allowed = []
+    if o2:
+        allowed.append(name)
+    if u2:
+        allowed.append(name.upper())
+    if l2:
+        allowed.append(lo)
+    base = list(allowed)
+    if f2:
+        if lo.endswith('-mib'):
+            allowed += [x[:len(x) - 4] for x in base]
+        else:
+            allowed += [(name + '-mib').upper(), (name + '-mib').lower()]
+    for g in got:
+        if g not in allowed:
+            return False
+    for w in allowed:
+        if w not in got:
+            return False
+    return True
+
+
 def real_zip(depth: int, indir: bool) -> bool:
     """
     requires: 0 <= depth <= 3
@@ -385,6 +421,9 @@ def conditions(prop, tier):
                         extra_pre=['ask <= 1 and fi <= 3'] if q else [],
                         bounds='archive nested %d level(s) deep; member under a symbolic variant name, in a sub-directory or not, duplicate '
                                'basenames, corrupt member, empty/invalid-UTF-8 content' % depth))
+    out.append(dict(name='C14.variants-history', fn='variants_history', fixed={}, timeout=t,
+                    bounds='two successive getMibVariants calls (same reader re-configured, or two readers) with every pair of settings of the '
+                           'four matching flags, names from %r: the second answer is determined by the second setting alone' % (NAMES,)))
     out.append(dict(name='C14.url-dispatch', fn='url_dispatch', fixed={}, timeout=t,
                     bounds='%d URL schemes x 4 path suffixes x options pass-through' % len(SCHEMES)))
     return out
@@ -395,6 +434,7 @@ def selftests(prop):
             ('file_reader', dict(ask=0, top=2, sub=0, subsub=0, fi=0, ci=1, mt=5, recursive=True, ignoreErrors=True, index=1, unreadable=False, noise=False)),
             ('zip_reader', dict(ask=0, depth=2, fi=2, ci=1, indir=True, dup=True, corrupt=False, present=True)),
             ('zip_reader', dict(ask=1, depth=0, fi=0, ci=1, indir=False, dup=False, corrupt=True, present=True)),
+            ('variants_history', dict(ask=0, o1=True, u1=True, l1=True, f1=True, o2=True, u2=False, l2=False, f2=False, same_reader=False)),
             ('real_zip', dict(depth=0, indir=False)), ('real_zip', dict(depth=1, indir=True)), ('real_zip', dict(depth=3, indir=True)),
             ('url_dispatch', dict(si=0, ext=1, with_opts=True)), ('url_dispatch', dict(si=4, ext=0, with_opts=False))]
 
